@@ -18,7 +18,7 @@ theorem C09_clean_after_return (c : Cfg) (hc : Plain c) (pick : List Nat → Opt
     (h : outcome (runEvents c pick (start c pick n src pre) evs) = .returned ret) :
     let s := runEvents c pick (start c pick n src pre) evs
     s.retries = [] ∧ s.pending = 0 ∧ ∀ x ∈ s.ws, x.closed = false → resIn x.chan = [] ∧ x.inbox = [] := by
-  have hinv := inv_runEvents hc hp evs _ (inv_start hc hp n src pre)
+  have hinv := inv_runEvents hc.toRetrying hp evs _ (inv_start hc.toRetrying hp n src pre)
   generalize runEvents c pick (start c pick n src pre) evs = s at h hinv
   unfold outcome at h
   split at h
